@@ -237,6 +237,59 @@ func checkC10(r *Result) {
 			}
 		}
 		r.check(n == 2, "STAKE-COUNT", "(x/reporter/keeper.Keeper).ReporterStake # two counting strategies", P.Pos(rs.Pos()), fmt.Sprintf("%d", n))
+		// every selector that is not locked is counted; the snapshot is stored on every success; a jailed reporter has no stake
+		{
+			heads := map[ssa.Instruction]bool{}
+			for _, h := range loopHeaders(rs) {
+				if len(h.Instrs) > 0 {
+					heads[h.Instrs[0]] = true
+				}
+			}
+			pc := AnalyzePaths(rs, []Atom{
+				{Name: "lockedNow", Cond: func(rel *Term) (bool, bool) {
+					if rel.Op == "<" && len(rel.Args) == 2 && rel.Args[0].Has("call:(github.com/cosmos/cosmos-sdk/types.Context).BlockTime") && rel.Args[1].Contains("Selection.LockedUntilTime") {
+						return true, true
+					}
+					return false, false
+				}},
+				{Name: "counted", Event: func(in ssa.Instruction) (bool, int8) {
+					if heads[in] {
+						return true, F
+					}
+					if c, ok := in.(ssa.CallInstruction); ok {
+						if cs := P.siteOf(c); cs != nil && (strings.HasSuffix(cs.Callee, ".IterateBondedValidatorsByPower") || strings.HasSuffix(cs.Callee, "StakingKeeper.IterateDelegatorDelegations")) {
+							return true, T
+						}
+					}
+					return false, U
+				}},
+				{Name: "jailed", Stable: true, Cond: func(rel *Term) (bool, bool) {
+					return strings.HasPrefix(rel.Op, "field:x/reporter/types.OracleReporter.Jailed"), true
+				}},
+				{Name: "stored", Event: P.CallEvent(descIs("coll:x/reporter/keeper.Keeper.Report.Set"), T)},
+			})
+			okIter, nBack, det := true, 0, ""
+			for _, h := range loopHeaders(rs) {
+				for _, p := range h.Preds {
+					if !h.Dominates(p) {
+						continue
+					}
+					nBack++
+					if bad := pc.RequireOnEdge(p, h, func(v map[string]bool) bool { return v["lockedNow"] || v["counted"] }); len(bad) > 0 {
+						okIter, det = false, fmt.Sprint(bad)
+					}
+				}
+			}
+			r.check(okIter && nBack > 0, "STAKE-COUNT", "(x/reporter/keeper.Keeper).ReporterStake # every selector of the reporter is counted unless it is locked", P.Pos(rs.Pos()), fmt.Sprintf("%d back edges %s", nBack, det))
+			okRet, nRet := true, 0
+			for _, ret := range SuccessReturns(rs) {
+				nRet++
+				if bad := pc.Require(ret, func(v map[string]bool) bool { return v["stored"] && !v["jailed"] }); len(bad) > 0 {
+					okRet, det = false, fmt.Sprint(bad)
+				}
+			}
+			r.check(okRet && nRet > 0 && len(pc.Matched["jailed"]) > 0, "STAKE-COUNT", "(x/reporter/keeper.Keeper).ReporterStake # a stake is returned only for a reporter that is not jailed, with its snapshot stored", P.Pos(rs.Pos()), fmt.Sprintf("%d success returns %s", nRet, det))
+		}
 		// in each closure: the amount added to the total is the amount recorded; only bonded validators
 		for _, cl := range rs.AnonFuncs {
 			var added, recorded []string
@@ -385,6 +438,12 @@ func checkC10(r *Result) {
 			r.check(len(bad) == 0 && len(ps.Matched["overCap"]) > 0, "SWITCH-LOCK", "(x/reporter/keeper.msgServer).RemoveSelector # a selection (and its lock) is removed only from a reporter that holds more selectors than the cap", P.Pos(cs.Pos()), fmt.Sprintf("valuations: %v", statesStr(ps, cs.Instr)))
 		}
 		r.check(n == 1, "SWITCH-LOCK", "(x/reporter/keeper.msgServer).RemoveSelector # one removal site", P.Pos(rs.Pos()), fmt.Sprint(n))
+	}
+	if cr := need("(x/reporter/keeper.msgServer).CreateReporter"); cr != nil {
+		requireAtSuccess(r, "JOIN-GUARDS", cr, "a created reporter is stored together with its self-selection", []Atom{
+			{Name: "reporter", Event: P.CallEvent(descIs("coll:x/reporter/keeper.Keeper.Reporters.Set"), T)},
+			{Name: "selection", Event: P.CallEvent(descIs("coll:x/reporter/keeper.Keeper.Selectors.Set"), T)},
+		}, func(v map[string]bool) bool { return v["reporter"] && v["selection"] })
 	}
 	checkHasMin(r, "JOIN-GUARDS")
 	r.minCount("JOIN-GUARDS", 5)
